@@ -1114,10 +1114,12 @@ META = {
                       '(before it starts, each suspension point, after it ended)'],
     'bounds': {
         'quick': {'directories': '1..2 of {Music, Private} in every mode combination, 2 nested shapes, 4 shapes with a nested directory '
-                                 'added/removed without a new scan', 'users': '3 (requests from user 0; the users are interchangeable)',
+                                 'added/removed without a new scan; three levels Music > Rock > Live: 2 scanned mode combinations + 5 '
+                                 'histories (innermost removed x2, middle removed, innermost added, middle added after the scan)', 'users': '3 (requests from user 0; the users are interchangeable)',
                   'phrases': '1 phrase of length 0..3, 2 phrases of length 2+1', 'changes_in_sequence': '1 (2 for flags / friends / listed); overlap: [prior] + first + second injected inside the cycle, 17 shapes',
                   'uploads_per_step': '1 (one job with 2)'},
-        'thorough': {'directories': '1..3 incl. nested, every mode combination; 24 add/remove-without-scan shapes',
+        'thorough': {'directories': '1..3 incl. nested, every mode combination; 24 add/remove-without-scan shapes; three levels: all 27 '
+                                    'mode combinations scanned and for each of the 4 histories, plus innermost-then-middle removed',
                      'users': 'requests from each of the 3 users', 'phrases': 'up to 3 phrases, length <= 3',
                      'changes_in_sequence': '2 (every ordered pair of the 8 change kinds on 7 shapes); overlap: every ordered pair of the 6 '
                                             'non-structural kinds x 5 prior states x 1..2 uploads x started/not', 'uploads_per_step': '1..2'}},
@@ -1191,7 +1193,6 @@ def jobs(tier):
     q = tier == 'quick'
     one, two, nested, stale, shapes, deep_shapes = _configs(tier)
     users = [0] if q else [0, 1, 2]
-    is_deep = lambda cfg, ops: 'Rock' in [d for d, _ in cfg] or any(op[1] == 'Rock' for op in ops)   # noqa: E731
     out = []
 
     def job(harness, fn, cfg, ops, requires, **params):
@@ -1317,4 +1318,30 @@ def jobs(tier):
                                 overlap_job(a, b, fidx=fidx, uploads=n, start=st, **kw)
                     overlap_job(a, b, fidx=fidx, msg='request')
                     overlap_job(a, b, fidx=fidx, start=1, user_abort=1)
+    # three nesting levels Music > Rock > Live, scanned and with directories added / removed afterwards (requests from user 0;
+    # no excluded phrases here: the entitlement clauses are what these shapes are for)
+    for cfg, ops in deep_shapes:
+        job('search', h_search, cfg, ops, ['search_reply_sent', 'search_no_reply', 'search_visible_listed'], user=0, phrase_lens=[])
+        job('shares', h_shares, cfg, ops, ['shares_reply_sent', 'shares_visible_listed'], user=0)
+        for msg in ('queue', 'request'):
+            job('request', h_request, cfg, ops, ['request_handled', 'upload_created', 'upload_refused', 'upload_offered'],
+                msg=msg, pre='none', user=0)
+        for msg, pre in ([('queue', 'FAILED')] if q else [('queue', 'FAILED'), ('queue', 'COMPLETE'), ('request', 'ABORTED')]):
+            job('request', h_request, cfg, ops, ['request_handled'], msg=msg, pre=pre)
+        for pre in (['QUEUED', 'ABORTED'] if q else PRE_STATES):
+            req = ['cycle_done']
+            if pre in UNFINISHED:
+                req += ['upload_aborted_by_change', 'permitted_upload_kept']
+            if pre == 'ABORTED':
+                req += ['upload_requeued', 'user_abort_kept', 'change_abort_kept']
+            job('cycle', h_cycle, cfg, ops, req, pre=pre, user=0)
+    deep0 = [['Music', 'everyone'], ['Rock', 'friends'], ['Live', 'users']]
+    change_job(deep0, ['remove_dir'], fidx=2)                                  # removes Live: its file falls to Rock (friends)
+    change_job([['Music', 'everyone'], ['Rock', 'users']], ['add_live'], fidx=2)
+    if not q:
+        change_job(deep0, ['remove_dir', 'remove_dir'], requires=('initially_queued', 'change_done'), fidx=2)
+        change_job([['Music', 'friends'], ['Rock', 'users'], ['Live', 'everyone']], ['remove_dir', 'mode'],
+                   requires=('initially_queued', 'change_done'), fidx=2, msg='request')
+        change_job([['Music', 'users'], ['Rock', 'everyone'], ['Live', 'friends']], ['remove_dir', 'friends'],
+                   requires=('initially_queued', 'change_done'), fidx=2)
     return out
